@@ -73,18 +73,36 @@ func (x *Exec) autoInline(fn *ssa.Function) bool {
 			}
 		}
 		for _, in := range b.Instrs {
-			n++
+			if _, isDbg := in.(*ssa.DebugRef); !isDbg {
+				n++
+			}
 			switch c := in.(type) {
 			case *ssa.Call:
 				if _, ok := c.Common().Value.(*ssa.Builtin); !ok {
-					return false
+					callee := c.Common().StaticCallee()
+					if callee == nil {
+						return false
+					}
+					if !x.isAssumedPure(callee) {
+						if x.inlineDepth > 1 {
+							return false
+						}
+						x.inlineDepth++
+						ok := x.autoInline(callee)
+						x.inlineDepth--
+						if !ok {
+							if fc, _ := x.contractOf(callee); fc == nil {
+								return false
+							}
+						}
+					}
 				}
 			case *ssa.Go, *ssa.Defer, *ssa.Select:
 				return false
 			}
 		}
 	}
-	return n <= 24
+	return n <= 30
 }
 
 // paramNames returns receiver+parameter names of a callee.
@@ -276,7 +294,8 @@ func (x *Exec) applyContract(st *State, fc *FuncContract, key string, callee *ss
 	env.oheaps, env.oepoch, env.onow = st.heaps, st.epoch, st.now
 	for _, r := range fc.Requires {
 		t := x.evalBool(st, r.SX, env)
-		x.emit(st, "pre", fmt.Sprintf("%s/call:%s@%s:%s", x.funcKeyOf(x.fn), shortKey(key), x.L.pos(pos), r.Name), Clause{Src: r.Src}, t)
+		// a precondition protects the callee's properties: the obligation counts for those, not for the caller's
+		x.emit(st, "pre", fmt.Sprintf("%s/call:%s@%s:%s", x.funcKeyOf(x.fn), shortKey(key), x.L.pos(pos), r.Name), Clause{Src: r.Src, Props: fc.Props}, t)
 		x.assume(st, t)
 	}
 	// snapshot
@@ -328,6 +347,7 @@ func (x *Exec) applyContract(st *State, fc *FuncContract, key string, callee *ss
 			term = "(" + sym + " " + strings.Join(as, " ") + ")"
 		}
 		res = Val{S: x.def(st, x.so.sortOf(rt.At(0).Type()), term), T: rt.At(0).Type()}
+		x.bornFact(st, res)
 	} else if rt.Len() == 1 {
 		res = x.havocVal(st, rt.At(0).Type(), "res")
 	} else if rt.Len() > 1 {
@@ -502,9 +522,9 @@ func (x *Exec) callCommon(st *State, c *ssa.CallCommon, i ssa.Value, pos token.P
 	if callee == nil {
 		// a closure called through the local variable it was assigned to (e.g. a recursive local function)
 		if rc := resolveCallee(c); rc != nil && rc.Parent() != nil {
-			if fcc, _ := x.contractOf(rc); fcc != nil && !fcc.Inline {
+			if b := x.closureBindings(st, rc); b != nil || len(rc.FreeVars) == 0 {
 				callee = rc
-				clo = x.closureBindings(st, rc)
+				clo = b
 			}
 		}
 	}
@@ -943,14 +963,22 @@ func (x *Exec) closureBindings(st *State, fn *ssa.Function) []Val {
 		}
 		return out
 	}
-	for _, b := range fr.fn.Blocks {
-		for _, in := range b.Instrs {
-			if mc, ok := in.(*ssa.MakeClosure); ok && mc.Fn == ssa.Value(fn) {
-				var out []Val
-				for _, bnd := range mc.Bindings {
-					out = append(out, x.get(st, bnd))
+	// the frame (this one or an enclosing one on the stack) whose function created the closure
+	for k := len(st.stack) - 1; k >= 0; k-- {
+		f := st.stack[k]
+		for _, b := range f.fn.Blocks {
+			for _, in := range b.Instrs {
+				if mc, ok := in.(*ssa.MakeClosure); ok && mc.Fn == ssa.Value(fn) {
+					var out []Val
+					for _, bnd := range mc.Bindings {
+						v, ok := f.vals[bnd]
+						if !ok {
+							return nil
+						}
+						out = append(out, v)
+					}
+					return out
 				}
-				return out
 			}
 		}
 	}
